@@ -620,7 +620,23 @@ def stack_filter_classes(ctx) -> List[str]:
                 if r and r[0] == "class":
                     out.append(r[1])
             return out
-    return []
+    if any(isinstance(n, ast.Call) and call_name(n) == "stack" for n in walk_no_nested(fn.node)):
+        return []
+    # the lists of the chart picked by class, one by one: [.. for v in m.objs.values() if isinstance(v, (HitList, HoldList))]
+    for n in walk_no_nested(fn.node):
+        if isinstance(n, (ast.ListComp, ast.GeneratorExp)) and len(n.generators) == 1 and len(n.generators[0].ifs) == 1 and \
+                isinstance(n.generators[0].target, ast.Name) and unparse(n.generators[0].iter).endswith(".objs.values()"):
+            t = n.generators[0].ifs[0]
+            if isinstance(t, ast.Call) and call_name(t) == "isinstance" and len(t.args) == 2 and isinstance(t.args[0], ast.Name) and \
+                    t.args[0].id == n.generators[0].target.id:
+                a = t.args[1]
+                out = []
+                for e in (a.elts if isinstance(a, (ast.Tuple, ast.List)) else [a]):
+                    r = M.resolve_expr(fn.mod, e)
+                    if r and r[0] == "class":
+                        out.append(r[1])
+                return out
+    return None
 
 
 def rule_r4(ctx) -> List[R.Inst]:
@@ -629,6 +645,9 @@ def rule_r4(ctx) -> List[R.Inst]:
     fn = _fn(ctx)
     file = M.mods[fn.mod].rel
     flt = stack_filter_classes(ctx)
+    if flt is None:
+        return [R.undec(rid, "note-filter", file, fn.node.lineno, "how the notes are selected (a stack with a type filter, an isinstance test "
+                                                                  "over the chart's lists) was not found")]
     if sorted(flt) != sorted([HITLIST, HOLDLIST]):
         return [R.viol(rid, "note-filter", file, fn.node.lineno,
                        f"notes are selected by {[short(c) for c in flt] or 'no type filter'}; the rule is about hits and holds",
